@@ -49,6 +49,11 @@ class Engine(object):
         self.used_assumptions[tag] = self.used_assumptions.get(tag, 0) + 1
 
     def oblig(self, st: State, kind, goal, line=0, label="", cls="P", extra=None):
+        if z3.is_and(goal) and goal.num_args() > 1 and kind.startswith(("inv-", "post", "end", "yield", "end-hint", "hint")):
+            # one obligation per conjunct: smaller queries, and the failing clause is named
+            for i, g in enumerate(goal.children()):
+                self.oblig(st, kind, g, line, f"{label}.{i + 1}" if label else str(i + 1), cls, extra)
+            return
         name = f"{self.cur_func}/{kind}" + (f":{label}" if label else "")
         if self.cur_case:
             name += f"[{self.cur_case}]"
@@ -237,7 +242,7 @@ class Engine(object):
         if isinstance(op, ast.Sub):
             return VInt(x - y)
         if isinstance(op, ast.Mult):
-            return VInt(smt.som(x * y))
+            return VInt(self.mul_ite(x, y))
         if isinstance(op, (ast.FloorDiv, ast.Mod)):
             q, r = self.int_divmod(st, x, y, line)
             return VInt(q if isinstance(op, ast.FloorDiv) else r)
@@ -253,6 +258,14 @@ class Engine(object):
                 return VInt(smt.som(r))
             raise OutOfSubset(f"line {line}: integer power with symbolic exponent")
         raise OutOfSubset(f"line {line}: operator {op}")
+
+    def mul_ite(self, x, y, depth=0):
+        """x*y with if-then-else pushed outwards (products of plain terms normalise and abstract better)."""
+        if depth < 3:
+            for a, b in ((x, y), (y, x)):
+                if z3.is_app_of(a, z3.Z3_OP_ITE) and not z3.is_int_value(b):
+                    return z3.If(a.arg(0), self.mul_ite(a.arg(1), b, depth + 1), self.mul_ite(a.arg(2), b, depth + 1))
+        return smt.som(x * y)
 
     def div_guard(self, st, y, line):
         c = smt.conc_real(y) if y.sort() == REAL else None
@@ -274,6 +287,20 @@ class Engine(object):
             self.oblig(st, f"zerodiv@{line}", y != 0, line)
             st.assume(y != 0)
         x, y = smt.som(x), smt.som(y)
+        if getattr(self, "under_binder", 0):
+            # inside a point-wise lifted array expression the witnesses must be functions of the element index
+            fd = z3.Function("fdiv", INT, INT, INT)
+            fm = z3.Function("fmod", INT, INT, INT)
+            a_, b_ = z3.Ints("x_d y_d")
+            ax = z3.ForAll([a_, b_], z3.Implies(b_ > 0, z3.And(a_ == b_ * fd(a_, b_) + fm(a_, b_), 0 <= fm(a_, b_),
+                                                                fm(a_, b_) < b_,
+                                                                z3.Implies(a_ >= 0, z3.And(fd(a_, b_) >= 0, fd(a_, b_) <= a_)))),
+                           patterns=[fd(a_, b_)])
+            if not any(p is self.__dict__.get("_fdiv_ax") for p in st.pc):
+                self._fdiv_ax = ax
+                st.assume(ax)
+            self.assume_tag("AXIOM:floor division (definition)")
+            return fd(x, y), fm(x, y)
         if z3.is_app_of(x, z3.Z3_OP_ITE) and cy is None:
             c = x.arg(0)
             q1, r1 = self.int_divmod(st, x.arg(1), y, line)
@@ -495,10 +522,13 @@ class Engine(object):
         sub = State.fork(st)
         sub.acc = None
         self.spec_depth += 1
+        self.under_binder = getattr(self, "under_binder", 0) + 1
         try:
             r = self.arith(op, el(a), el(b), sub, line)
         finally:
             self.spec_depth -= 1
+            self.under_binder -= 1
+        st.pc.extend(p for p in sub.pc[len(st.pc):] if p is getattr(self, "_fdiv_ax", None))
         kind = "real" if isinstance(r, VReal) else ("int" if isinstance(r, VInt) else "bool")
         raw = r.t
         obj = self.new_obj(st, kind, None, "tmp", contents=z3.Lambda([j], raw))
